@@ -159,8 +159,12 @@ func (m *ModelServer) AcknowledgePublication(_ context.Context, request *traits.
 	if request.Version == "" {
 		return nil, status.Error(codes.InvalidArgument, "version is required")
 	}
+	receipt := request.Receipt
+	if receipt == traits.Publication_Audience_RECEIPT_UNSPECIFIED {
+		receipt = traits.Publication_Audience_ACCEPTED // the documented default
+	}
 	received := &traits.Publication{Audience: &traits.Publication_Audience{
-		Receipt:               request.Receipt,
+		Receipt:               receipt,
 		ReceiptRejectedReason: request.ReceiptRejectedReason,
 	}}
 
@@ -192,7 +196,8 @@ func (m *ModelServer) AcknowledgePublication(_ context.Context, request *traits.
 		}),
 	)
 
-	if err == alreadyAcknowledged && request.AllowAcknowledged {
+	// the collection wraps the errors of the expected check, compare by what the check saw rather than by identity
+	if err != nil && acknowledgedPub != nil && request.AllowAcknowledged {
 		return acknowledgedPub, nil
 	}
 
